@@ -192,6 +192,24 @@ Example ex_slice_plain :
 Proof. vm_compute. repeat split. Qed.
 
 (* ------------------------------------------------------------------ *)
+(* A `range` index in plain terms (Proofs/RangeFacts.v): over all of Z, `list(range(a, b, s))` as the model computes
+   it (closed-form counts for both signs of the step) lists exactly the integers from a (included) towards b
+   (excluded) that differ from a by a multiple of s; s = 0 raises. *)
+From PF Require Import Proofs.RangeFacts.
+
+Theorem range_index_in_plain_terms : forall a b s : Z,
+  (s = 0 -> py_range a b s = None)%Z /\
+  (s <> 0 -> exists l, py_range a b s = Some l /\
+     forall x, In x l <-> (if 0 <? s then a <= x < b /\ (x - a) mod s = 0
+                           else b < x <= a /\ (a - x) mod (- s) = 0))%Z.
+Proof. exact py_range_plain. Qed.
+Print Assumptions range_index_in_plain_terms.
+
+Example ex_range_plain :
+  py_range 7 (-2) (-3) = Some [7; 4; 1]%Z /\ py_range (-5) 6 4 = Some [-5; -1; 3]%Z /\ py_range 3 3 1 = Some [].
+Proof. vm_compute. repeat split. Qed.
+
+(* ------------------------------------------------------------------ *)
 (* "The source is left unchanged" for the one object of the caller that the selection code writes next to: the index
    tensor.  Store model (Model/FrameStore.v) of _normalize_index's tensor branch -- clone, then the masked in-place
    += on the clone: the caller's tensor (any object that existed before) is never written, whatever it contains, and
